@@ -5,6 +5,6 @@ CONSTANTS
   InitConfig = 1
   MaxUpdates = 6
   EmitMode = "none"
-INVARIANTS TypeOK NoOrphanKF EmitWalk
+INVARIANTS TypeOK NoOrphan EmitWalk
 PROPERTIES Ref_Stored Ref_Order Ref_Stale Ref_OnlyNow Ref_Removed
 CHECK_DEADLOCK FALSE
